@@ -2,8 +2,10 @@ package pgdump
 
 import (
 	"fmt"
+	"math"
 	"regexp"
 	"sort"
+	"strconv"
 )
 
 // SearchResult represents a match found during search
@@ -171,10 +173,23 @@ func matchValue(value interface{}, re *regexp.Regexp) bool {
 		}
 	default:
 		// Convert to string and search
-		str := fmt.Sprintf("%v", v)
-		return re.MatchString(str)
+		return re.MatchString(scalarText(v))
 	}
 	return false
+}
+
+// scalarText is the text a scalar value is searched as: fmt's %v, except that a
+// float64 of magnitude 1e6 up to (not including) 1e15 is written positionally
+// ("1000000", "1234567.89") instead of in %v's exponent notation ("1e+06",
+// "1.23456789e+06"): that is how PostgreSQL prints numeric, float8 and JSON
+// numbers of that size, all of which are decoded to float64.
+func scalarText(v interface{}) string {
+	if f, ok := v.(float64); ok {
+		if a := math.Abs(f); a >= 1e6 && a < 1e15 {
+			return strconv.FormatFloat(f, 'f', -1, 64)
+		}
+	}
+	return fmt.Sprintf("%v", v)
 }
 
 // matchMap recursively searches in a map
